@@ -50,6 +50,21 @@ KEYWORD_PREFIX_DOCS = [
 BLANK_ONLY_DOCS = [" ", "\n", "// c\n", "# licence", "/* x */", " \t\r\n// a\n/* b */\n", "//"]
 
 
+# texts the parser accepts that lie in the exclusion `outside` of C15_accepted_is_printed (fam/idl/NOTES.md): their trees are
+# fixed here, so that implementation and model are seen to read them exactly as the notes say
+OUTSIDE_WF_DOCS = [
+    ("const i8 c=[5x]", "(file - (const c (type i8 []) (list (int 5) (path x)) []))"),
+    ("const i8 c=[true.5]", "(file - (const c (type i8 []) (list (bool true) (double \".5\")) []))"),
+    ("const i8 c=[a .5]", "(file - (const c (type i8 []) (list (path a) (double \".5\")) []))"),
+    ("const i8 c=[1.5x 0x1fg]", "(file - (const c (type i8 []) (list (double \"1.5\") (path x) (int 31) (path g)) []))"),
+    ("enum E { A = 5B }", "(file - (enum E ((ev A 5 []) (ev B - [])) []))"),
+    ("const i8 c = 5struct S{}", "(file - (const c (type i8 []) (int 5) []) (struct S () []))"),
+    ("service S { oneway.x f() }", "(file - (service S - ((fn f twoway (type (path oneway.x) []) () () [])) []))"),
+    ("service S { throws f() }", "(file - (service S - ((fn f twoway (type (path throws) []) () () [])) []))"),
+    ("typedef set T", "(file - (typedef (type (path set) []) T []))"),
+]
+
+
 def gen_cases(rng, tier):
     """list of (case_line, expected canon or None, kind, group) ; group ties the layouts of one document together"""
     q = tier == "quick"
@@ -60,6 +75,8 @@ def gen_cases(rng, tier):
         cases.append(("file " + ig.hx(t), c, "keyword-prefix", None))
     for t in BLANK_ONLY_DOCS:
         cases.append(("file " + ig.hx(t), "(file -)", "blank-only", None))
+    for t, c in OUTSIDE_WF_DOCS:
+        cases.append(("file " + ig.hx(t), c, "outside-wf", None))
     for i in range(n_docs):
         seed = rng.randrange(1 << 62)
         # the same document (same structural choices: the document generator is driven by its own seed) under
